@@ -407,8 +407,8 @@ func (m *C17Monitor) BeginBlockEntry(c *Chain, ctx sdk.Context) {
 			c.Violate("C17", "c17", "evm-address-registered-without-initial-signatures-of-that-validator", map[string]interface{}{"operator": op})
 			continue
 		}
-		want, err := c.App.BridgeKeeper.EVMAddressFromSignatures(ctx, s.ext.InitialSignature.SignatureA, s.ext.InitialSignature.SignatureB)
-		if err != nil || !bytes.Equal(want.Bytes(), addr) {
+		want, wok := ownEVMAddressFromSignatures(s.ext.InitialSignature.SignatureA, s.ext.InitialSignature.SignatureB)
+		if !wok || !bytes.Equal(want.Bytes(), addr) {
 			c.Violate("C17", "c17", "evm-address-not-the-one-recovered-from-its-own-signatures", map[string]interface{}{"operator": op})
 		}
 		if !bytes.Equal(addr, s.val.EVMAddress()) && isHonestInit(s) {
